@@ -197,7 +197,7 @@ func ArmijoConditionMet(currObj, initObj, initGrad, step, decrease float64) bool
 //   - step > 0
 //   - 0 <= decrease < curvature < 1
 func StrongWolfeConditionsMet(currObj, currGrad, initObj, initGrad, step, decrease, curvature float64) bool {
-	if currObj > initObj+decrease*step*initGrad {
+	if !ArmijoConditionMet(currObj, initObj, initGrad, step, decrease) {
 		return false
 	}
 	return math.Abs(currGrad) < curvature*math.Abs(initGrad)
@@ -211,7 +211,7 @@ func StrongWolfeConditionsMet(currObj, currGrad, initObj, initGrad, step, decrea
 //   - step > 0
 //   - 0 <= decrease < curvature< 1
 func WeakWolfeConditionsMet(currObj, currGrad, initObj, initGrad, step, decrease, curvature float64) bool {
-	if currObj > initObj+decrease*step*initGrad {
+	if !ArmijoConditionMet(currObj, initObj, initGrad, step, decrease) {
 		return false
 	}
 	return currGrad >= curvature*initGrad
